@@ -662,11 +662,22 @@ class DeclSplicerHarness(object):
         self.user = {k: SymStr(e, [SymChar(e, z) for z in self.zs[k]]) for k in DECL_KEYS}
         d = pipeline.load_yaml(LIBS[self.libname])
 
+        # the YAML value of a splicer may be a list of lines, or one text (plain scalar / '|-' block: no final newline;
+        # '|' block: final newline)
+        fz = z3.Int("splicer_value_form")
+        e.assume(z3.And(fz >= 0, fz <= 2))
+        self.form = ["list", "text", "text+newline"][e.choose(fz)]
+
+        def value_of(k):
+            if self.form == "list":
+                return [self.user[k]]
+            return self.user[k] if self.form == "text" else self.user[k] + "\n"
+
         def visit(node):
             for sub in node.get("declarations") or []:
                 t = sub.get("decl", "")
                 if t and not re.match(r"\s*(class|namespace|enum|struct|typedef)\b", t):
-                    sub["splicer"] = {k: [self.user[k]] for k in DECL_KEYS}
+                    sub["splicer"] = {k: value_of(k) for k in DECL_KEYS}
                 visit(sub)
         visit(d)
         info = default_run(self.libname)
@@ -674,11 +685,30 @@ class DeclSplicerHarness(object):
         for fname, (g, blocks) in sorted(info.items()):
             for name in blocks:
                 supplied[g][name] = ["file_level_text();"]
-        return pipeline.run(d, splicers={g: nest(v) for g, v in supplied.items()}, deep=False)
+        # shroud.ast.listify asks isinstance(value, str): the module-global name `str` is bound to a class that also
+        # accepts the string proxy (and converts like str)
+        import builtins
+        import shroud.ast as A
+
+        class _StrMeta(type):
+            def __instancecheck__(cls, o):
+                return isinstance(o, (builtins.str, SymStr))
+
+            def __call__(cls, *a, **k):
+                return builtins.str(*a, **k)
+
+        class StrLike(metaclass=_StrMeta):
+            pass
+        A.str = StrLike
+        try:
+            return pipeline.run(d, splicers={g: nest(v) for g, v in supplied.items()}, deep=False)
+        finally:
+            del A.str
 
     def witness(self, m, what):
         body = {k: "".join(chr(m.eval(z, model_completion=True).as_long()) for z in zs) for k, zs in self.zs.items()}
-        return {"level": "declaration", "library": self.libname, "user_lines": [body[k] for k in DECL_KEYS], "keys": DECL_KEYS, "what": what}
+        return {"level": "declaration", "library": self.libname, "user_lines": [body[k] for k in DECL_KEYS], "keys": DECL_KEYS, "what": what,
+                "form": getattr(self, "form", "list")}
 
     def body_in_function(self, lines, head_rx, comment):
         """lines of the first splicer block after the first line matching head_rx (a function's heading)"""
@@ -775,17 +805,21 @@ SUPPLY_EXT = {"c": [".c", ".cpp", ".h", ".hpp", ".txt"], "f": [".f", ".f90", ".t
               "py": [".c", ".cpp", ".h", ".py", ".txt"], "lua": [".c", ".cpp", ".lua", ".txt"]}
 
 
+# documented suffixes of splicer files named on the command line (the suffix decides the group)
+CMD_EXT = {"c": [".c", ".h", ".cpp", ".hpp", ".cxx", ".hxx", ".cc", ".C"], "f": [".f", ".f90"], "py": [".py"], "lua": [".lua"]}
+
+
 class SupplyHarness(object):
     """`splicer: {c: [...], f: [...], py: [...], lua: [...]}` in the YAML file, through the real main_with_args on
     temporary files: a file listed under a group supplies that group whatever its extension is (the engine picks
     the extension); the other groups keep their defaults.  Bodies are concrete here (they come from disk)."""
 
-    def __init__(self, libname, group, twin=False):
-        self.libname, self.group, self.twin = libname, group, twin
+    def __init__(self, libname, group, twin=False, via="yaml"):
+        self.libname, self.group, self.twin, self.via = libname, group, twin, via
 
     def run(self, e):
         from harness import C14
-        exts = SUPPLY_EXT[self.group]
+        exts = SUPPLY_EXT[self.group] if self.via == "yaml" else CMD_EXT[self.group]
         v = z3.Int("ext")
         e.assume(z3.And(v >= 0, v < len(exts)))
         self.ext = exts[e.choose(v)]
@@ -802,14 +836,15 @@ class SupplyHarness(object):
         fn = "user_%s%s" % (self.group, self.ext)
         body = "%s splicer begin %s\nTAG_%s();\n%s splicer end %s\n" % (self.comment, self.block, self.group, self.comment, self.block)
         d = pipeline.load_yaml(LIBS[self.libname])
-        d["splicer"] = {self.group: [fn]}
+        if self.via == "yaml":
+            d["splicer"] = {self.group: [fn]}
         import yaml
         text = yaml.safe_dump(d)
         tmpfiles = {fn: body}
-        return run_main_with_files(text, tmpfiles)
+        return run_main_with_files(text, tmpfiles, [fn] if self.via == "cmdline" else [])
 
     def witness(self, what):
-        return {"level": "yaml-splicer-file", "library": self.libname, "group": self.group, "extension": self.ext,
+        return {"level": "yaml-splicer-file", "via": self.via, "library": self.libname, "group": self.group, "extension": self.ext,
                 "block": self.block, "user_lines": ["TAG_%s();" % self.group], "what": what}
 
     def judge(self, e, kind, value):
@@ -849,7 +884,7 @@ class SupplyHarness(object):
         return {"cls": cls, "sample": self.witness(None)}
 
 
-def run_main_with_files(yaml_text, extra_files):
+def run_main_with_files(yaml_text, extra_files, more_filenames=()):
     """the real main_with_args on a temporary directory holding lib.yaml and the given files; output in memory"""
     import argparse
     import shutil
@@ -878,7 +913,7 @@ def run_main_with_files(yaml_text, extra_files):
         wrapc.Wrapc.capsule_code, wrapc.Wrapc.capsule_order, wrapc.Wrapc.capsule_include = {}, [], {}
         wrapp.Wrapp.capsule_code, wrapp.Wrapp.capsule_order = {}, []
         try:
-            args = argparse.Namespace(cmake="", cfiles="", ffiles="", filename=["lib.yaml"], logdir="", outdir="",
+            args = argparse.Namespace(cmake="", cfiles="", ffiles="", filename=["lib.yaml"] + list(more_filenames), logdir="", outdir="",
                                       outdir_c_fortran="", outdir_lua="", outdir_python="", outdir_yaml="", path=[],
                                       write_helpers="", write_statements="", yaml_types="", write_version=False,
                                       option=[], language=None)
@@ -1019,11 +1054,11 @@ def confirm(w):
         v = res.get("j", {}).get("violation")
         return (v["what"] if v else None), None
     if w["level"] == "yaml-splicer-file":
-        h = SupplyHarness(w["library"], w["group"])
+        h = SupplyHarness(w["library"], w["group"], via=w.get("via", "yaml"))
         res = {}
 
         def run_s(e):
-            e.assume(z3.Int("ext") == SUPPLY_EXT[w["group"]].index(w["extension"]))
+            e.assume(z3.Int("ext") == (SUPPLY_EXT if w.get("via", "yaml") == "yaml" else CMD_EXT)[w["group"]].index(w["extension"]))
             return h.run(e)
         Engine().explore(run_s, lambda e, kind, value: res.__setitem__("j", h.judge(e, kind, value)))
         v = res.get("j", {}).get("violation")
@@ -1036,6 +1071,7 @@ def confirm(w):
             for k, sline in zip(DECL_KEYS, lines):
                 for i, ch in enumerate(sline):
                     e.assume(z3.Int("d%s_%d" % (k, i)) == ord(ch))
+            e.assume(z3.Int("splicer_value_form") == ["list", "text", "text+newline"].index(w.get("form", "list")))
             return h.run(e)
         saved = globals()["domain"]
         globals()["domain"] = lambda zs: True
@@ -1175,6 +1211,8 @@ def main():
     for g in ("c", "f", "py", "lua"):
         specs.append(("harness.C12", "make_supply", dict(libname="geom", group=g)))
         labels.append(("yaml-splicer-file", g, "geom"))
+        specs.append(("harness.C12", "make_supply", dict(libname="geom", group=g, via="cmdline")))
+        labels.append(("command-line-splicer-file", g, "geom"))
     budget = 600 if tier == "quick" else 5000
     accs = driver.explore_many(specs, split_depth=8, time_budget_s=budget, max_decisions=50000)
     total = driver.Acc()
